@@ -627,17 +627,37 @@ def paint(ctx):
 
 
 def own_fallback(ctx):
-    """GraphicObject.property_by_values reads each paint property twice: the internal key first, then the presentation attribute
-    with the first result as fallback (`x = values.get("x_internal"); x = values.get(ATTR_X, x)`).  The fallback of a
-    property must be that property's own earlier value: `fill_opacity = values.get(FILL_OPACITY, stroke_opacity)` makes a missing
-    fill-opacity inherit the stroke's."""
+    """GraphicObject.property_by_values reads each opacity twice: the internal key ("fill_opacity") and the presentation
+    attribute ("fill-opacity"), the first being the fallback of the second - as two statements (`x = values.get(internal);
+    x = values.get(ATTR, x)`) or nested (`values.get(ATTR, values.get(internal))`).  The fallback of a property must be that
+    property's own other spelling: `values.get(FILL_OPACITY, stroke_opacity)` makes a missing fill-opacity inherit the stroke's."""
     fn = ctx.fn("GraphicObject.property_by_values", "R14.3")
+    vals = fn.args.args[1].arg if len(fn.args.args) > 1 else "values"
+
+    def key_of(node):
+        try:
+            k = const_value(ctx.m, node)
+        except Exception:
+            k = None
+        return k.replace("-", "_") if isinstance(k, str) else None
+
+    def is_get(c):
+        return isinstance(c, ast.Call) and isinstance(c.func, ast.Attribute) and c.func.attr == "get" and isinstance(c.func.value, ast.Name) and c.func.value.id == vals and c.args
+
+    last = {}  # local -> normalised key it was last read from
     n = 0
     for st in stmts_in(fn.body):
-        if isinstance(st, ast.Assign) and len(st.targets) == 1 and isinstance(st.targets[0], ast.Name) and isinstance(st.value, ast.Call) and isinstance(st.value.func, ast.Attribute) \
-                and st.value.func.attr == "get" and len(st.value.args) == 2 and isinstance(st.value.args[1], ast.Name):
-            n += 1
-            tgt, dflt = st.targets[0].id, st.value.args[1].id
-            ctx.ob("R14.3", "GraphicObject.property_by_values[%s falls back to itself]" % tgt, tgt == dflt, "default %s" % dflt, st.lineno,
-                   "each paint property cascades on its own: a missing value keeps what was inherited for THAT property")
-    ctx.need(n >= 2, "R14.3", "two-step reads of paint properties not found (%d)" % n)
+        if not (isinstance(st, ast.Assign) and len(st.targets) == 1 and isinstance(st.targets[0], ast.Name) and is_get(st.value)):
+            continue
+        tgt, call = st.targets[0].id, st.value
+        own = key_of(call.args[0])
+        if len(call.args) == 2:
+            d = call.args[1]
+            fb = last.get(d.id) if isinstance(d, ast.Name) else key_of(d.args[0]) if is_get(d) else None
+            if own is not None and fb is not None:
+                n += 1
+                ctx.ob("R14.3", "GraphicObject.property_by_values[%s falls back to itself]" % own, fb == own, "falls back to %s" % fb, st.lineno,
+                       "each paint property cascades on its own: a missing value keeps what was inherited for THAT property")
+        if own is not None:
+            last[tgt] = own
+    ctx.need(n >= 1, "R14.3", "fallback reads of paint properties not found (%d)" % n)
